@@ -39,3 +39,32 @@ prop("C19", [
                    "no push is made after Close (the property does not say what it does)"],
    nontrivial_classes=["history-with-timeout-only-delivery", "history-with-call-after-close",
                        "decision-definitely-expired", "decision-definitely-live"])
+
+PARSE = "props/parse"
+
+prop("C04", [
+    S(PARSE, "^TestC04Regress$", kind="plain"),
+    S(PARSE, "^TestC04Types$", kind="plain"),
+    S(PARSE, "^TestC04$", q=30000, t=300000, shards=16),
+], ["milliseconds are written with three digits, as the kernel does",
+    "malformed cases are only those that are malformed under any reading of the header grammar",
+    "record type names are the library's own String() names (name<->number consistency is C20)"],
+   nontrivial_classes=["valid-unknown-type", "valid-hostile-body", "valid-seq-ge-2^31", "malformed-trunc", "malformed-nomsg"])
+
+prop("C05", [
+    S(PARSE, "^TestC05Regress$", kind="plain"),
+    S(PARSE, "^TestC05RepoLogs$", kind="plain"),
+    S(PARSE, "^TestC05$", q=60000, t=1000000, shards=16, timeout_t=3000),
+    S(PARSE, "", kind="fuzz", fuzz="FuzzParse", fuzztime_t=120),
+    S(PARSE, "", kind="fuzz", fuzz="FuzzParseLogLine", fuzztime_t=120),
+], ["absence of panics/hangs is sampled, not proved", "hang watchdog: 30 s per case for work that takes microseconds"],
+   nontrivial_classes=["header-accepted", "enrich-type-1300", "enrich-type-1306", "enrich-type-1309", "enrich-type-1400", "enrich-type-1327"])
+
+prop("C12", [
+    S(PARSE, "^TestC12Regress$", kind="plain"),
+    S(PARSE, "^TestC12Tables$", kind="plain"),
+    S(PARSE, "^TestC12$", q=50000, t=1000000, shards=16, timeout_t=3000),
+], ["values exclude what the property excludes (begin/end with a quote character, end in a backslash); inside msg='…' no single quote",
+    "EXECVE arguments are not whole placeholders; IPv6 flowinfo < 2^28; unix paths non-abstract; IPs compared as addresses",
+    "errno names come from the kernel header snapshot; arch/syscall names from the exported tables (what the property calls the published tables)"],
+   nontrivial_classes=["hex-encoded-decoded-value", "derived-field", "kind-sockaddr", "kind-execve", "kind-proctitle", "kind-kthread"])
